@@ -117,7 +117,7 @@ class Runtime:
             return True
         return False
 
-    def pump(self, until=None, max_steps=2_000_000, advance_time=True):
+    def pump(self, until=None, max_steps=2_000_000, advance_time=True, horizon=None):
         """Run until `until` (a Deferred) has fired, or until quiescent.  Timers in the future are
         reached by jumping the virtual clock (only when nothing else can make progress)."""
         while True:
@@ -133,6 +133,8 @@ class Runtime:
             calls = [c for c in self.clock.getDelayedCalls()]
             if calls and advance_time:
                 nxt = min(c.getTime() for c in calls)
+                if horizon is not None and nxt > horizon:
+                    break       # only far-future timers remain: treat as quiescent
                 self.clock.advance(max(0, nxt - self.clock.seconds()))
                 continue
             break
@@ -141,11 +143,12 @@ class Runtime:
         now = self.clock.seconds()
         return bool(self.pending) or any(c.getTime() <= now for c in self.clock.getDelayedCalls())
 
-    def wait(self, d, max_steps=2_000_000):
-        """Pump until Deferred d fires; returns its result or raises its failure; Stuck if it never fires."""
+    def wait(self, d, max_steps=2_000_000, horizon=7 * 24 * 3600.0):
+        """Pump until Deferred d fires; returns its result or raises its failure; Stuck if it never
+        fires although the system is quiescent, or within `horizon` seconds of virtual time."""
         box = []
         d.addBoth(box.append)
-        self.pump(until=d, max_steps=max_steps)
+        self.pump(until=d, max_steps=max_steps, horizon=self.clock.seconds() + horizon)
         if not box:
             raise Stuck("quiescent but the awaited Deferred never fired")
         r = box[0]
@@ -422,6 +425,10 @@ class Grid:
         fileutil.make_dirs(serverdir)
         ss = StorageServer(serverdir, serverid, stats_provider=SimpleStats(), readonly_storage=readonly,
                            reserved_space=reserved_space, clock=self.rt.clock)
+        # the share crawlers (bucket counter, lease checker) re-arm timers forever; they are the
+        # subject of C26/C27 (which build their own servers) and would keep a hung system "busy"
+        for child in list(ss):
+            child.disownServiceParent()
         mid = service.MultiService()
         mid.setServiceParent(self.parent)
         ss.setServiceParent(mid)
